@@ -16,9 +16,9 @@ func init() { runners["C15"] = runC15 }
 type pingCase struct {
 	Client   bool   `json:"client"`
 	N        int    `json:"n"`
-	Policy   string `json:"policy"`  // reverse | duplicate | withhold | foreign-first | shuffle
+	Policy   string `json:"policy"`   // reverse | duplicate | withhold | foreign-first | shuffle
 	Withhold []int  `json:"withhold"` // indices of pings whose pong is never sent
-	Reader   string `json:"reader"`  // closeread | reader
+	Reader   string `json:"reader"`   // closeread | reader
 	Seed     int64  `json:"seed"`
 }
 
